@@ -154,6 +154,7 @@ def build_reference(root: str) -> Dict:
     out = inventory(t)
     out["::writes"] = write_inventory(t)
     out["::defs"] = defs_inventory(t)
+    out["::logs"] = log_inventory(t)
     return out
 
 
@@ -512,4 +513,54 @@ def rule_LDI(tree: Tree, scope: Optional[List[Tuple[str, Optional[str]]]] = None
                                f"re-definition changes the value that the following statements (state updates, returns, output) work with", relpath))
     if n < (100 if scope is None else 1):
         raise AnalysisError(f"LDI: only {n} functions matched the reference definition inventory")
+    return r
+
+
+# ------------------------------------------------------------------ LSI: log statements stay total
+def _log_lookups(f: Func) -> List[str]:
+    out = []
+    for c in body_walk(f.node):
+        if isinstance(c, ast.Call) and _is_logging(c):
+            for a in list(c.args) + [k.value for k in c.keywords]:
+                for x in ast.walk(a):
+                    if isinstance(x, ast.Subscript) and not isinstance(x.slice, ast.Slice) and isinstance(x.ctx, ast.Load):
+                        out.append(" ".join(src(x, 120).split()))
+                    elif isinstance(x, ast.Call) and dotted(x.func) in ("next", "int", "float", "max", "min"):
+                        out.append(" ".join(src(x, 120).split()))
+    return sorted(out)
+
+
+def log_inventory(tree: Tree) -> Dict[str, List[str]]:
+    return {f"{f.module.relpath}::{f.qualname}": _log_lookups(f) for f in tree.all_funcs() if f.module.short not in SKIP_MODULES}
+
+
+def rule_LSI(tree: Tree, scope: Optional[List[Tuple[str, Optional[str]]]] = None) -> RuleResult:
+    import re
+    r = RuleResult("LSI", "log statements stay total: no log call of an existing function evaluates an index / key lookup or a partial conversion that the reference tree "
+                          "did not evaluate there — a log line that raises skips the statements after it")
+    ref = _ref().get("::logs")
+    if ref is None:
+        raise AnalysisError("vt/ref_guards.json has no log inventory (regenerate with `python3 -m vt.canon /repo`)")
+    cur = log_inventory(tree)
+    n = 0
+    for fkey, items in sorted(cur.items()):
+        if fkey not in ref:
+            continue
+        relpath, qn = fkey.split("::", 1)
+        if scope is not None and not any(f == relpath and (rx is None or re.fullmatch(rx, qn.split(".")[-1])) for f, rx in scope):
+            continue
+        n += 1
+        r.instances += 1
+        have = list(ref[fkey])
+        new = []
+        for it in items:
+            if it in have:
+                have.remove(it)
+            else:
+                new.append(it)
+        r.ob(not new, Finding("LSI", f"{fkey}:log-lookup:{_short(';'.join(new))}",
+                              f"{qn}: a log call now evaluates {new[:2]} — a lookup / conversion that can raise (KeyError, IndexError, TypeError, ValueError); the exception "
+                              f"leaves the function at the log line and skips what follows it (state updates, the -a append of the record)", relpath))
+    if n < (100 if scope is None else 1):
+        raise AnalysisError(f"LSI: only {n} functions matched the reference log inventory")
     return r
